@@ -34,6 +34,8 @@ ASSUMPTIONS_DB = [
     "aggregator.time replaced by a fixed harness clock (only used for a notification timestamp)",
     "log statements removed at import (symbolic run only; replays run the unmodified modules)",
 ]
+ASSUMPTION_DATETIME = ("aggregator.models.datetime replaced by a stub: TagsInfo.upsert only formats two tick times for a warning inside its "
+                       "__debug__ block (out-of-range tick times crashing that formatting are outside the claim)")
 
 
 class FakeDb:
@@ -118,6 +120,19 @@ class Clock:
 
     def time(self):
         return self.now
+
+
+class NoDatetime:
+    """models.datetime stand-in: TagsInfo.upsert formats both tick times for a (stripped) warning in its __debug__ block;
+    datetime.fromtimestamp cannot take a solver real."""
+
+    class _S:
+        def strftime(self, fmt):
+            return ""
+
+    @classmethod
+    def fromtimestamp(cls, *a, **kw):
+        return cls._S()
 
 
 class StubAsyncio:
@@ -394,6 +409,9 @@ def aggregator_world(sym):
         import openpectus.aggregator.aggregator as A
         import openpectus.aggregator.aggregator_message_handlers as H
         import openpectus.aggregator.data.repository as R
+        import openpectus.aggregator.models as AM
+        saved_dt = AM.datetime
+        AM.datetime = NoDatetime
         world = World(sym)
         world.rows = make_row_classes()
         PlotLogRepo, RecentRunRepo, RecentEngineRepo = make_repositories(world.rows)
@@ -421,6 +439,7 @@ def aggregator_world(sym):
             for k, v in saved_r.items():
                 setattr(R, k, v)
             H.asyncio = saved_h
+            AM.datetime = saved_dt
 
 
 @contextlib.contextmanager
